@@ -37,8 +37,18 @@ pub struct Sized {
     pub facts: Vec<String>,
 }
 
-/// Items (id, length): a subset whose lengths add up to `target` exactly, smallest ids preferred.
+/// Items (id, length): a subset whose lengths add up to `target` exactly; for the big targets the longest items
+/// are tried first (fewer glyphs to retain), otherwise the smallest ids.
 pub fn pick(items: &[(u16, usize)], target: usize) -> Option<Vec<u16>> {
+    if target > 4096 {
+        let mut sorted: Vec<(u16, usize)> = items.to_vec();
+        sorted.sort_by_key(|x| std::cmp::Reverse(x.1));
+        return pick_in_order(&sorted, target);
+    }
+    pick_in_order(items, target)
+}
+
+fn pick_in_order(items: &[(u16, usize)], target: usize) -> Option<Vec<u16>> {
     // reach[s] = 1 + index of the item that first reached the sum s (0: not reached; usize::MAX: the empty sum)
     let mut reach: Vec<usize> = vec![0; target + 1];
     reach[0] = usize::MAX;
@@ -195,14 +205,19 @@ const NG: usize = 1 + NF + NB;
 fn is_big(g: usize) -> bool {
     g > NF
 }
+/// fine glyphs: one byte apart up to 24, then 37 bytes apart (middle sizes, so that every total between the
+/// small and the big ones can be composed)
+fn fine(g: usize) -> usize {
+    if g <= 24 { g } else { 24 + 37 * (g - 24) }
+}
 fn cs_len(g: usize) -> usize {
-    if is_big(g) { 1700 + 9 * (g - NF) } else { 14 + g }
+    if is_big(g) { 1700 + 9 * (g - NF) } else { 14 + fine(g) }
 }
 fn lsubr_len(g: usize, big_base: usize, fd: usize) -> usize {
-    if is_big(g) { big_base + 11 * (g - NF) + fd } else { 5 + g + fd }
+    if is_big(g) { big_base + 11 * (g - NF) + fd } else { 5 + fine(g) + fd }
 }
 fn gsubr_len(g: usize) -> usize {
-    if is_big(g) { 1720 + 5 * (g - NF) } else { 7 + g }
+    if is_big(g) { 1720 + 5 * (g - NF) } else { 7 + fine(g) }
 }
 
 fn wrap_uniform(label: &str, kind: &str, table_tag: &str, table: Vec<u8>, n_glyphs: usize, names: &[(u16, String)]) -> Syn {
@@ -545,12 +560,25 @@ fn glyf_font(label: &str, records: &[Vec<u8>], long: bool, pad: bool) -> Syn {
             loca.extend_from_slice(&((o / 2) as u16).to_be_bytes());
         }
     }
-    let mut font = TtFont::new((0..n).map(|_| GlyphSpec::Empty).collect());
-    font.metrics = (0..n).map(|g| (500 + 3 * (g % 1000) as u16, (g % 2000) as i16 - 9)).collect();
-    font.num_h_metrics = ((n + 1) / 2) as u16;
-    font.cmap = (1..n.min(100)).map(|g| (0x40 + g as u32, g as u16)).collect();
-    font.loca_long = long;
-    font.extra_tables = vec![("loca".to_string(), loca), ("glyf".to_string(), glyf)];
+    let font = TtFont {
+        glyphs: vec![GlyphSpec::Empty; n.min(4)], // glyf / loca / maxp are replaced below
+        metrics: (0..n).map(|g| (500 + 3 * (g % 1000) as u16, (g % 2000) as i16 - 9)).collect(),
+        num_h_metrics: 1,
+        cmap: (1..n.min(100)).map(|g| (0x40 + g as u32, g as u16)).collect(),
+        extra_tables: vec![],
+        loca_long: long,
+    };
+    let nhm = (n + 1) / 2;
+    let long_m: Vec<(u16, i16)> = font.metrics.iter().take(nhm).cloned().collect();
+    let lsbs: Vec<i16> = font.metrics.iter().skip(nhm).map(|m| m.1).collect();
+    let mut font = font;
+    font.extra_tables = vec![
+        ("maxp".to_string(), fontgen::maxp_tt(n as u16)),
+        ("hhea".to_string(), fontgen::hhea(nhm as u16, 800, -200, 4000)),
+        ("hmtx".to_string(), fontgen::hmtx(&long_m, &lsbs)),
+        ("loca".to_string(), loca),
+        ("glyf".to_string(), glyf),
+    ];
     let file = font.build();
     let t = Tables::from_sfnt(&file, 0).expect("own sfnt");
     Syn { label: label.to_string(), kind: "glyf".into(), tables: t, file, bounds: Vec::new() }
@@ -560,24 +588,24 @@ fn glyf_fonts(out: &mut Vec<Sized>, thorough: bool) {
     // short loca, the glyf table ends exactly at byte 131070 (the last offset a short loca can hold)
     let mut recs = vec![sized_record(40, 1)];
     for g in 1..=5 {
-        recs.push(sized_record(26200, 10 * g));
+        recs.push(sized_record(26198, 10 * g));
     }
-    recs.push(sized_record(30, 77));
+    recs.push(sized_record(40, 77));
     assert_eq!(recs.iter().map(|r| r.len()).sum::<usize>(), 131070);
     let syn = glyf_font("syn/glyf-short-131070", &recs, false, true);
     let plans = vec![
         Plan { name: "size:glyf-short:131070".into(), ids: (0..7).collect(), apis: vec!["subset", "prince:unrestricted:t1"] },
         Plan { name: "size:glyf-short:131070".into(), ids: vec![0, 6, 5, 4, 3, 2, 1], apis: vec!["subset"] },
-        Plan { name: "size:glyf-short:131040".into(), ids: (0..6).collect(), apis: vec!["subset"] },
+        Plan { name: "size:glyf-short:131030".into(), ids: (0..6).collect(), apis: vec!["subset"] },
     ];
     out.push(Sized { syn, plans, facts: vec!["source:glyf:short-loca-ends-at-131070".into()] });
     // long loca, records of odd lengths stored without padding; retained records add up to both sides of 131070 / 131072
     let mut recs = vec![sized_record(41, 2)];
     for g in 1..=5 {
-        recs.push(sized_record(26201, 10 * g + 1));
+        recs.push(sized_record(26101, 10 * g + 1));
     }
     for g in 6..=20 {
-        recs.push(sized_record(15 + g, 3 * g));
+        recs.push(sized_record(40 + g, 3 * g as i16));
     }
     let lens: Vec<(u16, usize)> = recs.iter().enumerate().skip(1).map(|(g, r)| (g as u16, r.len())).collect();
     let syn = glyf_font("syn/glyf-long-odd", &recs, true, false);
@@ -591,7 +619,7 @@ fn glyf_fonts(out: &mut Vec<Sized>, thorough: bool) {
     out.push(Sized { syn, plans, facts: vec!["source:glyf:long-loca-odd-offsets".into()] });
     // 65535 glyphs (the most maxp can declare): ids up to 65534, old ids on both sides of numberOfHMetrics = 32768
     let n = 65535usize;
-    let recs: Vec<Vec<u8>> = (0..n).map(|g| if g % 1024 == 1 || g >= n - 6 || g == 0 { sized_record(24 + 2 * (g % 5), (g % 30000) as i16) } else { vec![] }).collect();
+    let recs: Vec<Vec<u8>> = (0..n).map(|g| if g % 1024 == 1 || g >= n - 6 || g == 0 { sized_record(40 + 2 * (g % 5), (g % 30000) as i16) } else { vec![] }).collect();
     let syn = glyf_font("syn/glyf-65535", &recs, false, true);
     let mut plans = vec![Plan { name: "count:glyf:ids-up-to-65534".into(), ids: vec![0, 65534, 65533, 1, 32767, 32768, 1025, 65529], apis: vec!["subset", "prince:unrestricted:t1"] }];
     if thorough {
@@ -643,7 +671,7 @@ pub fn repo_cff_lists(cff: &[u8]) -> Vec<(String, Vec<u16>)> {
     for &t in &TARGETS {
         if t > lens[0] {
             if let Some(v) = pick(&items, t - lens[0]) {
-                out.push((format!("size:charstrings:{}", t), ids_with_notdef(v)));
+                out.push((format!("size:repo-charstrings:{}", t), ids_with_notdef(v)));
             }
         }
     }
